@@ -167,14 +167,28 @@ Print Assumptions C14_statements_independent.
    the character skeleton is in normal form.  Then parse_equation on the de-normalised text ([t] -> [0], [t+k] -> [+k],
    [t-k] -> [-k]) computes exactly the same normalised equation text and the same code text, and the terms of the token list *)
 Theorem C14_normal_form_fixed_point : forall q : neq,
-  dq_ok q = true ->
-  parse_equation_M (denorm_text q) = of_outcome (equation_symbols (neq_text q) (neq_code q) (neq_terms q)).
-Proof. exact normal_form_fixed_point. Qed.
+  dq_ok canon q = true ->
+  parse_equation_M (denorm_text canon q) = of_outcome (equation_symbols (neq_text q) (neq_code q) (neq_terms q)).
+Proof. exact (normal_form_fixed_point canon). Qed.
 Print Assumptions C14_normal_form_fixed_point.
 
+(* more generally, for EVERY way `lay` of writing the index brackets (blanks after "[" and before "]" on the right-hand side,
+   leads with or without "+"; none inside the left-hand bracket — finding #22): the same result.  Hence layout inside index
+   brackets does not matter for whole statements of this form *)
+Theorem C14_fixed_point_any_index_layout : forall (lay : layout) (q : neq),
+  dq_ok lay q = true ->
+  parse_equation_M (denorm_text lay q) = of_outcome (equation_symbols (neq_text q) (neq_code q) (neq_terms q)).
+Proof. exact normal_form_fixed_point. Qed.
+Print Assumptions C14_fixed_point_any_index_layout.
+Theorem C14_index_layout_irrelevant : forall (lay1 lay2 : layout) (q : neq),
+  dq_ok lay1 q = true -> dq_ok lay2 q = true ->
+  parse_equation_M (denorm_text lay1 q) = parse_equation_M (denorm_text lay2 q).
+Proof. exact index_layout_irrelevant. Qed.
+Print Assumptions C14_index_layout_irrelevant.
+
 (* what must NOT happen: no symbol of the re-parse carries any other equation or code *)
-Theorem C14_fixed_point_symbols : forall (q : neq) (syms : list symbol),
-  dq_ok q = true -> parse_equation_M (denorm_text q) = POk syms ->
+Theorem C14_fixed_point_symbols : forall (lay : layout) (q : neq) (syms : list symbol),
+  dq_ok lay q = true -> parse_equation_M (denorm_text lay q) = POk syms ->
   forall s, In s syms -> (sequation s = None \/ sequation s = Some (neq_text q)) /\ (scode s = None \/ scode s = Some (neq_code q)).
 Proof. exact fixed_point_symbols. Qed.
 Print Assumptions C14_fixed_point_symbols.
@@ -185,10 +199,12 @@ Proof. exact py_int_dz. Qed.
 Print Assumptions C14_int_of_str.
 
 Theorem C14_fixed_point_satisfiable :
-  dq_ok ex_fix_q = true /\
-  (exists syms, parse_equation_M (denorm_text ex_fix_q) = POk syms /\
-     exists s, In s syms /\ sname s = Some "C" /\ sequation s = Some (neq_text ex_fix_q) /\ scode s = Some (neq_code ex_fix_q)).
-Proof. exact (conj ex_fix_ok ex_fix_instance). Qed.
+  dq_ok canon ex_fix_q = true /\
+  (exists syms, parse_equation_M (denorm_text canon ex_fix_q) = POk syms /\
+     exists s, In s syms /\ sname s = Some "C" /\ sequation s = Some (neq_text ex_fix_q) /\ scode s = Some (neq_code ex_fix_q)) /\
+  dq_ok ex_lay ex_fix_q = true /\
+  denorm_text ex_lay ex_fix_q = "C[1] = (alpha_1[ 0  ] * max(YD[ 2  ], H[ -1  ]) if X[ '2000'  ] <= 0 else `np.pi *  2`)".
+Proof. exact (conj ex_fix_ok (conj ex_fix_instance ex_lay_ok)). Qed.
 Print Assumptions C14_fixed_point_satisfiable.
 
 (* the exclusion "equations without backticked period indexes" is needed *)
